@@ -73,6 +73,8 @@ const UGC: &str = "input: q/1. input: c -> symbol. input: d -> general. output: 
 const PN: &[&str] = &["p(X) :- q(X), X != n.", "p(X) :- q(X), not t(X). t(n).", "p(X) :- q(X), X < n.", "p(X) :- q(X), X <= n, X != n.", "p(n) :- q(n).", "p(X) :- q(X), X > n - 1."];
 const PC: &[&str] = &["p(X) :- q(X), X != c.", "p(X) :- q(X), X != c, X != d.", "p(X) :- q(X), not t(X). t(c).", "p(X) :- q(X). :- q(c), q(d), c = d.", "p(X) :- q(X), X < c."];
 const SN: &[&str] = &["spec: forall X (p(X) <-> q(X) and X != n).", "spec: forall X (p(X) -> q(X) and X < n). spec(backward): forall X (p(X) -> X != n).", "assumption: n > 0. spec: forall X (p(X) <-> q(X) and X < n)."];
+const SNAMED: &[&str] = &["spec[formula_1]: p -> q. spec[formula_1]: q -> p.", "assumption[a]: q or not q. spec[formula_0_a]: p <-> q.", "spec[x]: p -> q. spec[x]: q -> p.", "spec[formula_2_completed_definition_of_p_0]: p <-> q.",
+    "spec(forward)[formula_0_x]: q -> p. spec(backward)[formula_0_x]: p -> q. spec[p]: p or not p."];
 const SD: &[&str] = &["assumption(forward): q. spec: p <-> q.", "assumption(forward): q. spec: p.", "assumption: q. spec(backward): p. spec(forward): p or not p.", "assumption(forward): not q. spec: p <-> q. spec(backward): p -> q."];
 
 const UG2: &str = "input: e/2. output: r/1.";
@@ -127,7 +129,7 @@ pub fn cases(deep: bool) -> Vec<(Case, Vec<&'static [&'static str]>)> {
         }
     }
     for (l, r, ug) in SPECIAL_PAIRS { k += 1; out.push((Case { left: Some(l), program: r, spec: None, ug, outline: None }, if deep { FLAGS.to_vec() } else { vec![FLAGS[0], FLAGS[1], FLAGS[2 + k % 3]] })); }
-    for (specs, progs, ug) in [(S0, P0, UG0), (S1, P1, UG1), (SN, PN, UGN), (SD, P0, UG0), (S2, P2, UG2)] {
+    for (specs, progs, ug) in [(S0, P0, UG0), (S1, P1, UG1), (SN, PN, UGN), (SD, P0, UG0), (S2, P2, UG2), (SNAMED, P0, UG0)] {
         for (si, s) in specs.iter().enumerate() {
             let n = progs.len();
             let js: Vec<usize> = if deep { (0..n).collect() } else { vec![si % n, (si * 3 + 1) % n, (si * 5 + 2) % n] };
@@ -137,7 +139,7 @@ pub fn cases(deep: bool) -> Vec<(Case, Vec<&'static [&'static str]>)> {
     // proof outlines (C13): lemmas that are true, lemmas that are false, definitions, an inductive lemma
     const O0: &[&str] = &[
         "lemma: p -> q.", "lemma(forward): q -> p. lemma(backward): p -> q.", "lemma: p or not p. lemma: q -> q.", "lemma: #false.", "lemma: p. lemma: q -> p.", "lemma(backward): #false.",
-        "lemma: q -> p. lemma: p -> q. lemma: p <-> q.", "lemma(forward): q -> p. lemma: p -> p.", "lemma(forward): p. lemma(backward): not p.",
+        "lemma: q -> p. lemma: p -> q. lemma: p <-> q.", "lemma[formula_1]: p -> q. lemma[formula_1]: p or not p.", "lemma[formula_0_constraint_0]: p -> q.", "lemma(forward): q -> p. lemma: p -> p.", "lemma(forward): p. lemma(backward): not p.",
     ];
     const O1: &[&str] = &[
         "definition: forall X (d(X) <-> p(X) and not q(X)). lemma: forall X (d(X) -> p(X)).", "lemma: forall X (p(X) -> q(X)).", "lemma: forall X (q(X) -> p(X)). lemma: exists X (p(X)).",
